@@ -975,8 +975,25 @@ def ia_stream(ctx):
             continue
         lo, hi = (dom, end) if mon == "offc" else (a[0][0], a[-1][0])
         qs = [q for q in query_times(sig, f, [t for t, _ in a], dom, end) if lo <= q <= hi]
+        rep["raw"] = out[1]
         pend.append((mon, sem, io, text, tf, sig, a, qs, rep))
     allvals = model_query([(tf, sig, qs) for (_, _, _, _, tf, sig, _, qs, _) in pend])
+    # the mirrors of the list algorithms on the transformed formula (robustness semantics; the vacuity override is not mirrored)
+    # (not where a sub-formula takes the value NaN - inf - inf under iff / xor / arithmetic of +-inf -: the driver reports such
+    # cases as undefined, all model values NaN)
+    clean = [p_ for p_, (vals_, _, _) in zip(pend, allvals) if not any(v_ is not None and v_ != v_ for v_ in vals_)]
+    offs = [p_ for p_ in clean if p_[0] == "offc"]
+    ons = [p_ for p_ in clean if p_[0] == "onc"]
+    mirr = list(zip(offs, alg_query([(p_[4], p_[5]) for p_ in offs]))) + \
+        [(p_, (m[0], [x for row in m[1] for x in row]) if m[0] == "ok" else m)
+         for p_, m in zip(ons, alg_online_query([(p_[4], p_[5], []) for p_ in ons]))]
+    for (mon, sem, io, text, tf, sig, a, qs, rep), m in mirr:
+        ctx.count("ia-mirror:%s/%s" % (mon, m[0] if m[0] != "err" else "err-" + m[1]))
+        raw = rep["raw"]
+        if m[0] == "ok" and not any(x[1] != x[1] for x in raw) and not same_samples(raw, m[1]):
+            ctx.diffs.append(Violation("the mirror of the dense %s list algorithms on the transformed formula gives %r, the monitor under %s "
+                                       "semantics returned %r: %s" % ("offline" if mon == "offc" else "online", m[1], sem, raw, text),
+                                       dict(rep, mirror=[[str(t), v] for t, v in m[1]]), failing_input=False, stream="ia-c/mirror"))
     for (mon, sem, io, text, tf, sig, a, qs, rep), (vals, _, _) in zip(pend, allvals):
         bad = None
         for q, mv in zip(qs, vals):
@@ -1023,6 +1040,20 @@ def check_ia(ctx, mon, f, sig, sem, io):
             return Violation("dense %s monitor, %s semantics, io=%r: value at t=%s is %r; standard evaluation with the insensitive "
                              "predicates replaced gives %r: %s" % (mon, sem, io, q, iv, mv, text), rep, stream="ia-c")
     ctx.nontrivial.add((mon, sem, str(sorted(io.items())), text, str(rep["signals"])))
+    # the mirrors of the list algorithms on the transformed formula (robustness semantics; the vacuity override is not mirrored)
+    if mon == "offc":
+        m, = alg_query([(tf, sig)])
+        raw = out[1]
+    else:
+        m, = alg_online_query([(tf, sig, [])])
+        raw = out[1]
+        if m[0] == "ok":
+            m = ("ok", [p for row in m[1] for p in row])
+    ctx.count("ia-mirror:" + m[0])
+    if m[0] == "ok" and not any(p[1] != p[1] for p in raw) and not same_samples(raw, m[1]):
+        ctx.diffs.append(Violation("the mirror of the dense %s list algorithms on the transformed formula gives %r, the monitor under %s "
+                                   "semantics returned %r: %s" % ("offline" if mon == "offc" else "online", m[1], sem, raw, text),
+                                   dict(rep, mirror=[[str(t), v] for t, v in m[1]]), failing_input=False, stream="ia-c/mirror"))
     return None
 
 
